@@ -5,7 +5,7 @@ from cvbase import *
 
 ID = "C18"
 PROPS = "C18"
-RULE = ("requests with and without Expect: 100-continue (any letter case) x Content-Length {0, 5, 1024, 1025, 5000} and chunked x "
+RULE = ("requests (HTTP/1.1, and HTTP/1.0 with keep-alive) with and without Expect: 100-continue (any letter case) x Content-Length {0, 5, 1024, 1025, 5000} and chunked x "
         "handlers {answer without touching the body, read all, read part, several reads, zero-length read} x finishers {respond, "
         "drop, raw writer} x position in a pipeline of 1..3; with a client that sends everything at once and with a client that "
         "withholds the body until the interim response has arrived; the oracle demands the status sequence [100, final] exactly "
@@ -25,11 +25,16 @@ def build(rng, i, hold):
         if q == k:
             expects = rng.chance(3, 4)
             fr = rng.choice(["cl", "cl", "cl", "chunked"])
+            v10 = rng.chance(1, 4)          # the expectation counts whatever the request's HTTP version
+            if v10:
+                fr = "cl"
             size = rng.choice([0, 5, 1024, 1025, 5000]) if fr == "cl" else rng.choice([5, 3000])
             body = body_bytes(tag, size)
             r = AReq(method="POST", target="/e" + tag, version="1.1", headers=[("Host", "h")], framing=fr, body=body,
                      chunks=random_chunks(rng, size) if fr == "chunked" else None,
                      expect=(rng.choice(["100-continue", "100-Continue", "100-CONTINUE"]) if expects else None))
+            if v10:
+                r.version, r.conn = "1.0", "keep-alive"
             rk = rng.below(5)
             reads = [[], [(None, 4096)], [(max(1, size // 2), 7)], [(1, 1), (None, 1024)], [(1, 0)]][rk]
             fk = rng.below(4)
@@ -69,7 +74,7 @@ def build(rng, i, hold):
     extra = "wu=%s ws=%s wb=%s we=closed" % (j(wu), j(ws), j(wb))
     if hold and holdpos is not None and holdpos < len(stream):
         extra += " hold=%d" % holdpos
-    return cv_line(stream, acts, extra=extra), {"n": n, "position": k, "withholding_client": bool(hold)}
+    return cv_line(stream, acts, extra=extra), {"n": n, "position": k, "withholding_client": bool(hold), "http10": int(v10)}
 
 
 def gen(tier, rng):
